@@ -10,112 +10,155 @@ TB = ("Coq 8.16.1 kernel (+vm_compute); no axioms of our own (Print Assumptions 
       "extraction with ExtrOcamlBasic only; unverified glue: python/OCaml/C drivers; the C code is modelled, "
       "tied by regeneration/correspondence on the cases run")
 
+ENGINES = [
+    {"name": "E1 gc", "path": "coq/GC coq/Mem/GcDelete*.v harness/gc harness/ocaml/gc harness/vm/gcsched.c harness/c04 checks/parts/gcschedule.py checks/parts/boundedlive.py",
+     "serves_properties": ["C09", "C04", "C16", "C14", "C01"],
+     "kind_free_text": "Coq model of back/gc.c (GCModel.v) with proofs over all operation histories, reachable-preservation and schedule transparency; op-history correspondence with the real gc.c (gcdrive.c); forced collection schedules + heap audit on the real VM (hook H2); bounded-live metamorphic family"},
+    {"name": "E2 api", "path": "coq/VM/Api*.v coq/VM/ApiGlobal*.v harness/api harness/ocaml/api",
+     "serves_properties": ["C15"],
+     "kind_free_text": "Coq model of the embedding-API bookkeeping around a VM run and of the process-global state (FP status word, scanner string buffer, working directory) over all histories; API-history interpreter (apidrive.c) with fresh-process replay oracles; policies measured on the tree"},
+    {"name": "E3 arith/index", "path": "coq/Arith coq/Index coq/Exc/ExcTab*.v coq/Gen/ConvTables.v coq/Gen/OpSelect.v gen harness/arith harness/index harness/ocaml/arith harness/ocaml/index harness/common/nevrun.c",
+     "serves_properties": ["C10", "C11", "C12", "C03"],
+     "kind_free_text": "Coq models of the arithmetic handlers, conversion matrices, constred.c, enumred.c, enumerator index assignment, array/range/slice/string indexing and the exception-table search; typing/opcode tables regenerated from the tree's compiler on every run; direct-call and probe-program correspondence"},
+    {"name": "E4 verifier", "path": "coq/Verifier coq/VM/StackBound*.v coq/Exc/BuiltinFlags.v coq/Src/Tailrec.v coq/Gen/Opcodes.v harness/vm harness/ocaml/verifier harness/ocaml/stackbound harness/ocaml/tailrec harness/c03 harness/c13 harness/c14 lib/vmcheck.py",
+     "serves_properties": ["C07", "C03", "C13", "C14", "C09", "C01"],
+     "kind_free_text": "stack-shape machine + proved certificate checker (all static paths), unwinding, root-slot, tail-call and write-plan theorems; extracted checker on every compiled module, lock-step of the machine on real register traces incl. gc_stack tags (hooks H1, H3); opcode numbering regenerated from back/bytecode.h"},
+    {"name": "E5 source", "path": "coq/Src coq/VM/ValueVM.v coq/VM/ValueVM3.v harness/ocaml/eval harness/ocaml/tc harness/ocaml/compile harness/ocaml/compile3 checks/parts/evaldiff.py checks/parts/compiletie.py",
+     "serves_properties": ["C02", "C08", "C06", "C01", "C03", "C13"],
+     "kind_free_text": "reference evaluator, model typechecker, type safety, compile-correctness for the fragments F1-F3 on value-level VM models; type-directed program generator, differential real compiler+VM vs evaluator, code-equality tie of the compiler model with front/emit.c"},
+    {"name": "E6 front/mem", "path": "coq/Front coq/Mem coq/Gen/FrontConsts.v harness/front harness/mem harness/ocaml/front harness/ocaml/mem",
+     "serves_properties": ["C05", "C16"],
+     "kind_free_text": "proved logic slices (print_msg buffer arithmetic over regenerated constants, use stack, outcome classifier, allocation-trace monitor, gc_delete); malformed-input search under ASan/UBSan and malloc-event traces from a --wrap shim judged by the extracted monitor"},
+    {"name": "E7 ffi/hash", "path": "coq/FFI coq/Hash harness/ffi harness/hash harness/ocaml/ffi harness/ocaml/hash checks/parts/hashtab.py",
+     "serves_properties": ["C17", "C07", "C15"],
+     "kind_free_text": "Coq model of the record layout / marshalling / descriptor / ffi_fail decision logic of back/vmffi.c and refinement proofs for the open-addressing tables (dlcache, strtab, functab); gcc layout comparison, generated C callees, call sequences, table-operation correspondence"},
+]
+
 CHECKS = {
-    "C05": dict(
-        engine="E6 front",
-        technique="Coq proofs of the logic slices an executable model can carry (print_msg buffer arithmetic over constants regenerated from the tree, the `use` include-stack state machine, a verified outcome classifier); malformed-input search (token mutation, grammar-aware faults, raw bytes, long/deep inputs, use chains/cycles/missing modules) under ASan/UBSan with the extracted classifier as oracle",
-        text="proof (partial by nature): msg_write_within_buffer (for all prefix/body lengths, over MAX_MSG_SIZE and the size expressions regenerated from back/utils.c on every run), use_depth_bounded, outcome_classifier_correct; crash-, hang- and memory-safety of the generated scanner/parser and of the typechecker on arbitrary bytes cannot be stated over an executable model in this sandbox and are observed on ~2.5x10^4 inputs per run, never presented as proof",
-        ref="DESIGN.md §5 C05",
-        note=TB + "; 12 genuine robustness defects of the pinned tree are listed as known findings, 6 were fixed"),
-    "C16": dict(
-        engine="E6 mem / E1 gc",
-        technique="Coq proofs: an executable allocation-trace monitor is sound and complete for balanced / no double free / no free of unknown block, and exact about leaks; gc_delete frees each object exactly once (collector model); malloc-event traces of compile->run->dispose from a --wrap shim judged by the extracted monitor, LeakSanitizer as second opinion",
-        text="proof (partial by nature): monitor_sound_complete, monitor_leak_exact, gc_delete_frees_each_object_once; which source constructs reach which %destructor / *_delete cannot be modelled and is observed: every allocation event of libnev between program_new and program_delete/vm_delete on valid, syntactically broken, ill-typed, reducer-rejected and missing-module sources and all run outcomes",
-        ref="DESIGN.md §5 C16",
-        note=TB + "; exits through exit() inside libnev (stack too large, out of memory, flex fatal) are counted but not judged for leaks; 3 parse-error leaks are known findings"),
+    "C01": dict(
+        engine="E4 verifier + E1 gc + E5 source",
+        technique="Coq theorems: frame discipline on all paths of verified code (restated from C07), collector and allocator safety (from C09), type safety of the reference evaluator w.r.t. the model typechecker (preservation + progress with a store typing); crash oracle: every accepted corpus/generated program under ASan+UBSan+asserts across heap/stack configurations, ill-typed acceptance matrix",
+        text="proof (partial by nature): Properties_C01.v — verified_code_no_stack_crash, collection_keeps_reachable, allocation_safe; Properties_C01b.v — core_type_safety, core_type_safety_typed, core_type_safety_tc, eval_type_safe(_nonnil), eval_items_type_safe, handlers_type_safe about coq/Src/Eval.v (one side condition left: no let/var initialiser is the literal nil — the program that witnesses it crashes the real VM and is a known finding). That the C handlers do at the byte level what the models say is observed, never presented as proof: every program of /repo/sample, corpus/programs and the other engines' corpora x 4 (quick) / 9 (thorough) heap/stack configurations + a seeded one, fresh generated programs, every ordered pair of 17 type shapes through assignment and argument passing (any accepted pair is executed), C12's probe programs, all on the ASan/UBSan asserts-on build",
+        ref="DESIGN.md §5 C01",
+        note=TB + "; byte-level memory safety of the C handlers is observed (ASan/UBSan/asserts), not proved: no C semantics (VST/CompCert) in this sandbox; the check has no model run of its own, its tie is the crash oracle"),
     "C02": dict(
         engine="E5 source",
-        technique="Coq reference evaluator (Src/Eval.v) with machine-checked theorems for every language rule the property names (operand / argument order, short-circuit, binding shares cells, assignment copies payloads, fuel independence) [+ compiler-correctness theorem for the fragment proved so far]; differential: real compiler+VM vs the extracted evaluator on type-directed generated programs (result, printed text, unhandled exception)",
-        text="proof (partial): the property is equality with an independent reference evaluator; the evaluator is a Gallina program whose stated rules are theorems over all expressions and states (binop_left_to_right, call_args_right_to_left, and/or_short_circuits, binding_never_copies, assign_copies_payload, run_program_fuel_mono ...); the tie is the differential run on thousands of generated programs per run over all profiles (arith, order, alias, closure, shadow, loops, records, arrays, catch, tailrec), each also in uniquified and injectively renamed form; a compile-correctness theorem exists only for the fragment stated in Properties_C02 (see DESIGN §0): beyond it the evaluator is a model validated against the code, not a theorem about the compiler",
+        technique="Coq reference evaluator (Src/Eval.v) with machine-checked theorems for every language rule the property names (operand / argument order, short-circuit, binding shares cells, assignment copies payloads, for-in loops, fuel independence) + compiler-correctness theorems for the fragments F1-F3 on value-level VM models; differential: real compiler+VM vs the extracted evaluator on type-directed generated programs; instruction-by-instruction tie of the compiler model with front/emit.c",
+        text="proof (partial): Properties_C02.v (33 theorems over all expressions, environments and stores of the evaluator: eval_fuel_mono ... run_program_deterministic_in_fuel, binop_left_to_right, call_args_right_to_left, eval_args_rtl, and/or_short_circuits, binding_never_copies, assign_copies_payload, fresh_cell_for_arith, and the for-in rules of Src/EvalForIn.v: forin_range_bounds_once, forin_range_values, forin_range_iteration(_down), forin_done_value, forin_body_raises, forin_arr_iterable_once) and Properties_C02b.v (compile correctness, all proved in full, no _partial: compile_expr_correct, compile_func_correct_F, compile_program_correct_F1/_F2 on VM/ValueVM.v; compile_expr_correct_frames and compile_program_correct_F3 on VM/ValueVM3.v — whole module image, calls of top-level functions, recursion, self tail calls, faults leaving callees through RETHROW). Tied, not proved: the compiler model equals front/emit.c's code (level 2: region of main; level 3: whole code array, exception table, entry and function addresses) and the value-level VMs equal the real VM (result, prints, exception, peak sp, instruction count) on generated fragment programs. Outside F3 (closures, nested functions, catch clauses, arrays, records, for-in) the evaluator is a model validated by the differential run (3400 quick / 54000 thorough programs over 12 profiles, each also with a small heap), not a theorem about the compiler",
         ref="DESIGN.md §5 C02, §0",
-        note=TB + "; constructs outside Src/Syntax.v (strings, floats, enums/match, tuples, ranges, slices, comprehensions, modules) are covered by the other engines' probe families, not by this evaluator; sibling nested functions and tail-call elimination under catch clauses are listed as not modelled"),
-    "C08": dict(
-        engine="E5 source",
-        technique="Coq proofs on the reference evaluator: invariance under every injective renaming of all names, true alpha-conversion of a let/var binder to a fresh name (capture-avoiding substitution), closures capture the environment's cells, distinct activations get distinct cells, store monotonicity; differential: original vs uniquified vs injectively renamed programs on the real compiler, and vs the evaluator, on shadowing/closure/alias profiles",
-        text="proof: rename_invariance, alpha_fresh_binder (+ in_block, block_expr), closure_captures_cells, distinct_activations_distinct_cells, store_monotone about Src/Eval.v; tie: generated programs with the same name bound at every binder kind in nested scopes, escaping and returned closures, counters shared between closures: the real compiler must give the same outcome on the original, on the alpha-renamed (all binders unique) and on an injectively renamed variant, and equal to the evaluator",
-        ref="DESIGN.md §5 C08",
-        note=TB + "; free-variable resolution inside the real compiler (gencode.c) is tied only through the differential; one known finding (late shadow after closure kills the compiler)"),
-    "C06": dict(
-        engine="E5 source",
-        technique="Coq model typechecker for the core AST, proved sound AND complete w.r.t. a declarative typing judgment; every single-fault mutation operator of the rule catalogue proved rejected at any nesting depth; real compiler vs model on generated well-typed programs and all their mutants (accept/reject and diagnostic line), text-level mutants for unknown names/attributes/exceptions and match exhaustiveness",
-        text="proof: typecheck_sound / typecheck_complete, mutant_rejected (for every well-typed P and every single-fault mutant at any depth: operands, branches, loop bodies, arguments, nested functions, lambdas, catch clauses), assign_to_const_rejected, match_omitting_enumerator_rejected, unknown_exception_rejected about coq/Src/Typecheck.v; tie: ~4x10^4 generated mutants per quick run through the tree's compiler (each must be rejected with a diagnostic on the mutated node's line; each base program accepted), negative samples as corpus",
-        ref="DESIGN.md §5 C06",
-        note=TB + "; the model covers the core AST of Src/Syntax.v; rules outside it (slices, ranges, modules, enums beyond match) are exercised only by text-level mutants and by C01's ill-typed acceptance matrix"),
+        note=TB + "; constructs outside Src/Syntax.v (strings, floats, long, enums/match, tuples, multi-dimensional arrays, slices, comprehensions, modules) are covered by the other engines' probe families, not by this evaluator; Src/Eval.v has no tail-call elimination (functions with a tail self call get no catch clauses in the generator); ValueVM3's stack is unbounded, a bound in terms of call depth is not proved (peaks are compared in the tie)"),
     "C03": dict(
-        engine="E4 verifier / E5 source",
-        technique="Coq proofs: exception-table binary search spec and its link to the verifier's lookup; fault delivery on the shape machine for all paths of verified code (fault lands in own handler chain, chain finite and in source order, CLEAR_STACK restores the frame with parameters intact, RETHROW unwinds one frame, UNHANDLED only at top level); clause selection theorems on the reference evaluator; fault-program family with closed-form oracle + lock-step on real traces",
-        text="proof: search_spec, handler_is_search, fault_lands_in_own_handler, handler_chain_finite, clear_stack_restores_frame, rethrow_pops_partial_frame / rethrow_returns_to_caller, unhandled_only_at_top_level (every verified module, every reachable state, any call depth, any number of frames under construction) and first_matching_clause / no_clause_propagates / clause_exception_goes_to_later_clauses on Src/Eval.v; tie: direct-call correspondence with exctab.c, the verifier + layout check on every corpus module, generated fault programs (13 fault kinds x argument position x nesting depth x clause order) compared with a closed-form oracle and run in lock-step with the shape machine",
+        engine="E4 verifier + E5 source + E3 arith/index",
+        technique="Coq proofs: exception-table binary search spec and its link to the verifier's lookup; fault delivery on the shape machine for all paths of verified code; clause selection theorems on the reference evaluator; decision logic of built-in calls over the FP status word; fault-program family with closed-form oracle, flag rows of the real libvm_execute_build_in evaluated by coqc, lock-step on real traces",
+        text="proof: Properties_C03.v (28) — search_spec, handler_is_search; for every module accepted by the certificate checker and every reachable state (any call depth, any number of frames under construction): fault_lands_in_own_handler, handler_link_increases, handler_chain_finite, clear_stack_restores_frame, rethrow_pops_partial_frame, rethrow_returns_to_caller, every_fault_has_a_handler, unhandled_only_at_top_level, unhandled_reached_only_at_top; on Src/Eval.v: fault_result_unused_* (10), first_matching_clause, clause_value_is_call_result, no_clause_propagates, clause_exception_goes_to_later_clauses, catch_all_takes_the_rest, unhandled_at_top. Properties_C03b.v (7, Exc/BuiltinFlags.v) — builtin_outcome_is_classification_of_own_flags, builtin_outcome_independent_of_history, builtin_that_does_not_fail_raises_nothing, builtin_exception_is_an_own_flag. Tie: direct-call correspondence with exctab.c; ~3400 flag rows of the real built-in dispatcher checked by coqc (rows_ok); the verifier + emitter-layout check + lock-step on every corpus and family module; generated fault programs (13 fault kinds x argument position x 0..3 frames under construction x clause level/order x loops/closures/recursion/top level/FFI records, and operation history x built-in) compared with a closed-form oracle; block-boundary test",
         ref="DESIGN.md §5 C03",
-        note=TB + "; which exception number a clause tests is data (INT; PUSH_EXCEPT; EQ; JUMPZ): decided at source level and by the generated programs, the shape machine only carries control"),
-    "C13": dict(
-        engine="E4 verifier / E5 source",
-        technique="Coq proofs: a tail transfer keeps the frame (P, F) and the stack is bounded by (open non-tail calls + 1) x max certified frame size in every run of verified code; model of front/tailrec.c marks only (and all direct) tail-position self calls; generated tail-recursive family at N and 10N with peak-sp monitor (hook H1) and code-vs-model marking comparison",
-        text="proof: tail_call_keeps_frame, stack_bounded_by_open_calls, tail_call_constant_stack (corollaries of verify_depth: any number of tail transfers, peak independent of the iteration count), tailrec_marks_only_tail_positions / tailrec_marks_all_direct_tail_self_calls for coq/Src/Tailrec.v; tie: generated shapes (cond, block, match arm, if-let, nested, locals, catch clauses, non-tail controls) run at N=5000/50000 on a 200-slot stack: equal peak sp, peak below the verifier's bound, result equal to the loop; tail sites in the dumped code equal the model's marking",
-        ref="DESIGN.md §5 C13",
-        note=TB),
-    "C14": dict(
-        engine="E4 verifier / E1 gc",
-        technique="Coq proofs over per-opcode write plans (bump/check/write order mirrored from every handler, regenerated skeleton comparison): no write outside the stack and the limit reported exactly when needed, monotonicity in the stack size, on the shape machine for all runs of verified code; allocation on a full heap reports out of memory before writing (GC model); (heap,stack) grid under ASan with exact prediction of the instruction at which the limit fires",
-        text="proof: no_write_outside_stack (check-first tree, every opcode), verified_run_under_limit, limit_monotone_stack, limit_fires_iff_needed, oom_reported; both plan tables (pinned / check-first) are kept and the run probes the real VM to see which the tree implements; tie: static skeleton of all 227 handlers regenerated from the C sources and compared with the model shapes; for every program and stack size the extracted model's prediction (completes / limit at instruction i) must equal the real VM exactly",
-        ref="DESIGN.md §5 C14",
-        note=TB + "; heap size 0 is outside the configured sizes; depth of the C recursion in gc_mark (host stack) not modelled"),
-    "C10": dict(
-        engine="E3 arith",
-        technique="Coq proof by induction over literal expression trees that the model of front/constred.c agrees bit-for-bit with the run-time semantics written from back/vmexec.c; three-leg correspondence (real reducer vs fold, real VM vs rt_eval, literal-vs-variable metamorphic pairs on the real code)",
-        text="proof: fold_agrees_with_runtime (for every tree whose cells have an opcode), fold_literal_is_runtime_value, fold_total, run_never_traps; statements the faithful model violates are proved as _refuted with witnesses and are known findings (division by zero rejected under short-circuit/conditional although never evaluated; enum comparison cells without opcode; enum INT_MIN / -1 in the folder); tie: the folded literal is read back from the dumped bytecode, the VM result from probe programs with operands in variables, exhaustive over operator x admitted type pairs, corner + random values",
-        ref="DESIGN.md §5 C10",
-        note=TB + "; excluded as C UB and stated in evidence: out-of-range float->int, shift counts >= width; enumred.c not modelled"),
-    "C11": dict(
-        engine="E3 arith",
-        technique="Coq proofs over regenerated finite tables (promotion / assignment conversion / opcode selection: forallb by vm_compute lifted with forallb_forall) and over all values (wrap ring homomorphism, truncating division incl. MIN / -1, two's-complement bit operations, exact int<->long and float<->double conversions on SpecFloat); value probes on the real VM compared by bit pattern",
-        text="proof: binary_result_is_join, assignment_converts_to_left, opcode_matches_type over tables regenerated from the tree's typechecker+emitter on every run (exhaustive: every operator class x ordered type pair), and value-level theorems for all operand values; tie: ~10^4 one-expression probe programs per run (corner values, halfway cases, denormals, NaN, random) on the real VM, results compared bit-for-bit with the extracted operations",
-        ref="DESIGN.md §5 C11",
-        note=TB + "; IEEE conformance of Coq.Floats.SpecFloat is Flocq's theorem (cited, not re-proved); number formatting (Fmt.v) is tied by correspondence only"),
-    "C15": dict(
-        engine="E2 api",
-        technique="Coq proofs over all API histories of an abstract embedding-API machine (stack neutrality, repeatability, VM independence) with the instruction-level VM as a Section variable; API-history correspondence and fresh-process replay oracles on the real library under ASan",
-        text="proof for the VM part: execute_stack_neutral, execute_uses_no_more_stack_than_first, execute_repeatable, vms_independent over every finite history; which policy (pop at HALT, restore on error) the tree implements is probed on the real VM on every run; compile determinism/isolation lives in C globals of flex/bison/utils.c that no Gallina model expresses and is decided by correspondence only: the k-th compile/execute in a random history must equal a fresh process's",
-        ref="DESIGN.md §5 C15",
-        note=TB + "; `exec` (the instruction-level run of the entry stub) is a parameter of the model: its frame discipline is C07's theorem"),
+        note=TB + "; which exception number a clause tests is data (INT; PUSH_EXCEPT; EQ; JUMPZ): decided at source level and by the generated programs, the shape machine only carries control; values of libm built-ins are compared with libm called directly, not modelled"),
     "C04": dict(
         engine="E1 gc",
         technique="Coq proofs on the collector model: reachable cells preserved with identical objects, every path from the roots reads the same values, and schedule transparency of a path-addressed mutator language (any two collection schedules and heap sizes give equal observations); forced-schedule differential + heap audit on the real VM (hook H2) under ASan",
-        text="proof: collect_preserves_reachable, deep_read_invariant and gc_schedule_transparent (simulation through a partial bijection of addresses, for every mutator automaton, every two schedules and heap sizes that do not run out of memory) about coq/GC/GCModel.v, which is tied to back/gc.c by E1's op-history correspondence; that the VM's roots are complete is checked on the real VM: every corpus/generated program under collect-at-every-safe-point / default / never / seeded schedules and several heap sizes must give identical outcomes, and an audit after every collection walks the real heap from the real roots",
+        text="proof: Properties_C04.v (8) — collect_preserves_reachable, run_preserves_reachable, deep_read_invariant(_run), collect_idempotent (GC/GCPreserve.v) and gc_schedule_transparent, gc_never_always_threshold, run_never_collfail (GC/GCTransparent.v: every mutator program over registers, every two schedules and heap sizes that do not run out of memory) about coq/GC/GCModel.v, which is tied to back/gc.c by E1's op-history correspondence (a slice is re-run here). That the roots handed to the collector are complete is a theorem for the stack slots (Properties_C09b.v root_slots, tied by the gc_stack-tag lock-step) and otherwise checked on the real VM: corpus + generated allocation-heavy programs (8 families) under every-safe-point / threshold / never / seeded schedules and heap sizes from the program's need upward must give identical outcomes, and an audit around every collection walks the real heap from the real roots",
         ref="DESIGN.md §5 C04",
-        note=TB + "; the VM as a mutator (which slots are roots at each safe point) is observed through hook H2 + audit, not modelled instruction by instruction"),
-    "C17": dict(
-        engine="E7 ffi",
-        technique="Coq proofs about a model of the record layout/marshalling code of back/vmffi.c (System V struct layout, marshal/unmarshal round-trip, descriptor stream, nil => ffi_fail decision); layout compared exhaustively with gcc's offsetof/sizeof; generated C callees + extern programs under ASan",
-        text="proof (partial by nature): layout_is_c_layout, marshal_unmarshal_roundtrip, descriptor_stream_wellformed, nil_arg_is_ffi_fail about coq/FFI/Layout.v; the platform ABI/libffi/dlopen part cannot be modelled and is observed: generated signatures (arity up to 8/10, by-value structs 1-40 bytes, register and memory classes) must deliver every argument and result exactly",
-        ref="DESIGN.md §5 C17",
-        note=TB + "; register/memory classification, libffi and dlopen/dlsym are observed, not proved; one finding is a defect of the installed libffi 3.4.4 itself (known finding)"),
-    "C01": dict(
-        engine="E5 source / E4 verifier / E1 gc",
-        technique="Coq theorems restated from the verifier (frame discipline on all paths), the collector model (reachable cells never reclaimed, allocation never hands out a cell in use) [+ evaluator type safety for the core when proved]; crash oracle: every accepted corpus/generated program under ASan+UBSan+asserts across heap/stack configurations",
-        text="proof (partial by nature): the logic that an executable model can carry is proved — no stack-shape crash on any path of verified code, collector and allocator safety; that the C handlers do at the byte level what the models say is observed by sanitizers and the tree's own tag asserts on the cases run (every accepted program x several heap/stack sizes), never presented as proof",
-        ref="DESIGN.md §5 C01",
-        note=TB + "; byte-level memory safety of the C handlers is observed (ASan/UBSan/asserts), not proved: no C semantics (VST/CompCert) in this sandbox"),
-    "C09": dict(
-        engine="E1 gc",
-        technique="Coq proof of heap-bookkeeping invariants and exact collection over all operation histories of a model of gc.c; op-history correspondence (exact addresses, lists, marks, objects) with the real gc.c + property oracle on the real heap",
-        text="proof: WF/Closed invariants over every finite history, alloc hands out a free cell, cells conserved, collection leaves exactly the reachable cells allocated (payload untouched), fuel of the recursive mark suffices, bounded live data never runs out of memory — all about coq/GC/GCModel.v; the model is tied to back/gc.c by executing generated histories on both (the model predicts every address, both lists, free chain, marks and objects after every op) and an independent reachability oracle on the real heap",
-        ref="DESIGN.md §5 C09",
-        note=TB + "; not modelled: host recursion depth of gc_mark, malloc failure, OBJECT_UNKNOWN"),
-    "C12": dict(
-        engine="E3 index",
-        technique="Coq proofs about models of object_arr_dim_mult/addr, vm_get_slice_range and the deref/slice/string handlers' guards; exhaustive small-extent + random direct-call correspondence and probe programs under ASan",
-        text="proof: row-major addressing exact and injective for in-range tuples, oob reported for the first offending dimension, range/slice composition denotes exactly the composed positions in all four directions, string index/slice guards, shape conformance, exception-table search spec; refuted statements (overflow cases) are proved as _refuted with witnesses and listed as known findings; tie: direct calls into the tree's object.c/vmexec.c/exctab.c (exhaustive for <=3 dims, extents <=4, ranges in [-1,5]^4) and handler-level probe programs",
-        ref="DESIGN.md §5 C12",
-        note=TB + "; handler-level behaviour is tied through probe programs, not by a model of the whole VM"),
+        note=TB + "; gp and C temporaries of handlers as roots are observed through hook H2 + audit, not modelled instruction by instruction"),
+    "C05": dict(
+        engine="E6 front/mem",
+        technique="Coq proofs of the logic slices an executable model can carry (print_msg buffer arithmetic over constants regenerated from the tree, the `use` include-stack state machine, a verified outcome classifier); malformed-input search (token mutation, truncation, grammar-driven syntax errors generated from the tree's parser.y, injected faults, raw bytes, long/deep inputs, use graphs) under ASan/UBSan with the extracted classifier as oracle",
+        text="proof (partial by nature): Properties_C05.v (8) — msg_within_buffer_spec, msg_write_safe_criterion, msg_write_within_buffer_verdict, msg_write_within_buffer (all prefix/body lengths, over MAX_MSG_SIZE and the size expressions regenerated from back/utils.c on every run), msg_unbounded_body_limit_refuted (the arithmetic before fix 86d534e, kept as discriminating witness), use_depth_bounded, outcome_classifier_total, outcome_classifier_correct. Crash-, hang- and memory-safety of the generated scanner/parser and of the typechecker on arbitrary bytes cannot be stated over an executable model in this sandbox and are observed on ~3.8x10^4 inputs per quick run (incl. ~1.16x10^4 grammar-driven syntax errors), never presented as proof",
+        ref="DESIGN.md §5 C05, §11",
+        note=TB + "; gen/gen_frontconsts.py reads back/utils.c and front/scanner.l as text (a spelling it cannot translate is reported as a broken tie); stack overflow counts only if the plain build with an 8 MiB stack dies too"),
+    "C06": dict(
+        engine="E5 source",
+        technique="Coq model typechecker for the core AST, proved sound AND complete w.r.t. a declarative typing judgment; every single-fault mutation operator of the rule catalogue proved rejected at any nesting depth; real compiler vs model on generated well-typed programs and all their mutants (accept/reject and diagnostic line); four text-level families with python oracles for constructs outside the core AST",
+        text="proof: Properties_C06.v (9) — typecheck_sound, typecheck_complete, mutant_rejected (every well-typed P, every single-fault mutant of the catalogue at any depth: operands, branches, loop bodies, arguments, nested functions, lambdas, catch clauses), mutant_rejected_at_depth, assign_to_const_rejected, match_check_sound, match_omitting_enumerator_rejected, unknown_exception_rejected, unknown_attribute_rejected about coq/Src/Typecheck.v / TypecheckMatch.v; tie: ~4x10^4 generated mutants per quick run through the tree's compiler (each rejected with a diagnostic on the mutated node's lines; each base program accepted); text families: several matches per unit, binder-scope grid, one-place type differences in nested function types, offence x 48 contexts x sink grid; corpus/C06 and the tree's *.nev.err samples",
+        ref="DESIGN.md §5 C06",
+        note=TB + "; the diagnostic line is not in the model (the AST carries no lines): checked on the real compiler only; rules outside the core AST of Src/Syntax.v are exercised by the text families and by C01's ill-typed acceptance matrix, not by a theorem"),
     "C07": dict(
-        engine="E4 verifier",
-        technique="Coq proof of a bytecode verifier (certificate checker) sound for a stack-shape machine along all paths; extracted checker run on every compiled module; lock-step of the machine on real register traces",
-        text="proof: Theorem verify_sound (all observation sequences = all static paths incl. exceptional edges and dynamic call targets) about the shape machine; per program the extracted checker validates the module emitted by the tree's compiler (translation validation with a proved validator); the machine's effect table is tied to back/vmexec.c by lock-step on real traces (hook H1) and the opcode numbering is regenerated from back/bytecode.h",
+        engine="E4 verifier + E7 ffi/hash",
+        technique="Coq proof of a bytecode verifier (certificate checker) sound for a stack-shape machine along all paths, incl. direct-call arity; proved reference checks; extracted checker run on every compiled module; lock-step of the machine on real register traces and gc_stack tags; string-table refinement",
+        text="proof: Properties_C07.v — verify_sound (all observation sequences = all static paths incl. exceptional edges and dynamic call targets), verify_depth, references_exist; Properties_C07b.v — direct_call_arity (a CALL directly after ID_FUNC_ADDR g finds exactly np g argument slots on every path); Hash/StrTabStatements.v (registered as obligations) — strtab_refines_list, strtab_entry_resize_preserves. Per program the extracted checker validates the module emitted by the tree's compiler (translation validation with a proved validator; a rejected module is searched for a concrete crashing static path); the machine's effect table is tied to back/vmexec.c by lock-step on real traces (hook H1: every step a successor, slot kinds = real tags), the opcode numbering is regenerated from back/bytecode.h, per-function metadata comes from hook H3",
         ref="DESIGN.md §5 C07",
-        note=TB + "; operand kinds flowing through locals/calls are outside the untyped bytecode (C01/C02); function metadata comes from hook H3"),
+        note=TB + "; operand kinds flowing through locals/calls are outside the untyped bytecode (C01b/C02); a dynamic callee of another arity is outcome ArityStuck of the model (the typechecker's obligation), observed by the lock-step"),
+    "C08": dict(
+        engine="E5 source",
+        technique="Coq proofs on the reference evaluator: invariance under every injective renaming of all names, true alpha-conversion of a let/var binder to a fresh name, closures capture the environment's cells, distinct activations and distinct for-in iterations get distinct cells, store monotonicity; differential: original vs uniquified vs injectively renamed programs on the real compiler, and vs the evaluator, on shadowing/closure/alias profiles, also with small heaps",
+        text="proof: Properties_C08.v (24) — rename_invariance, eval_rename, alpha_fresh_binder, alpha_fresh_binder_in_block, eval_subst_rel, res_rel_observable, closure_captures_cells, func_run_captures_env, func_run_names, closure_var_denotes_captured_cell, distinct_activations_distinct_cells, store_monotone(+_items,_handlers), cells_only_grow, cells_keep_index, objects_keep_index, and for for-in loops forin_range_step_fresh_cell, forin_range_cells_distinct, forin_closure_reads_own_cell, forin_arr_step_shares_cell — all about Src/Eval.v; tie: generated programs with the same name bound at every binder kind in nested scopes, escaping and returned closures, counters shared between closures, closures created in loops: the real compiler must give the same outcome on the original, the uniquified and an injectively renamed variant, and equal to the evaluator, with heaps of 20000, 150 and 400 cells",
+        ref="DESIGN.md §5 C08",
+        note=TB + "; free-variable resolution inside the real compiler (gencode.c) has no theorem (closures are outside F3) and is tied only through the differential; the generator avoids the shape of the known finding late-shadow-after-closure (kept in corpus/C08)"),
+    "C09": dict(
+        engine="E1 gc + E4 verifier",
+        technique="Coq proof of heap-bookkeeping invariants and exact collection over all operation histories of a model of gc.c; root slots of the VM stack classified for all reachable states of verified code; op-history correspondence with the real gc.c + property oracle on the real heap; bounded-live and forced-schedule families on the real VM",
+        text="proof: Properties_C09.v (10) — gc_new_wf, gc_wf_step, gc_wf_history, alloc_hands_out_a_free_cell, alloc_oom_iff_full, cells_conserved, collect_total, collect_exact, run_exact, bounded_live_never_oom about coq/GC/GCModel.v; Properties_C09b.v — stack_slots_classified, root_slots (Verifier/Roots.v: in every reachable state of verified code the roots are exactly the value slots and the saved-environment slot of every frame header). Tie: generated histories executed on the model and on back/gc.c (every address, both lists, free chain, marks, objects compared after every op; heaps 2..300 and 65535..140000 cells) + an independent reachability oracle; at VM level 17 bounded-live loop forms (heap for N iterations must suffice for 10N) and every corpus/generated program under forced collection schedules; the slot kinds are compared with the real gc_stack tags by the lock-step",
+        ref="DESIGN.md §5 C09",
+        note=TB + "; not modelled: host recursion depth of gc_mark, malloc failure, OBJECT_UNKNOWN; one stated exemption of the tag comparison: the junk slot RETHROW leaves until CLEAR_STACK removes it"),
+    "C10": dict(
+        engine="E3 arith/index",
+        technique="Coq proof by induction over literal expression trees that the model of front/constred.c agrees bit-for-bit with the run-time semantics written from front/emit.c + back/vmexec.c; model of front/enumred.c and of the enumerator index assignment as an equation system; three-leg correspondence (real reducer vs fold, real VM vs rt_eval, literal-vs-variable metamorphic pairs on the real code), operand-form and enum-declaration families",
+        text="proof: Properties_C10.v (19) — well_typed_trees_are_emitted, fold_agrees_with_runtime (every typed tree, all literal values), fold_literal_is_runtime_value, fold_total, fold_never_crashes, run_never_traps, regression statements for the repaired defects (long_mul, bool_neq, int_min_div, enum_min_div, enum_compare), efold_never_crashes, enumred_is_constred_on_int_trees, enum_index_is_runtime_value; one statement is false of the faithful model and stays a known finding: fold_div0_is_runtime_fault_partial (strict trees) with fold_div0_is_runtime_fault_refuted / cond_div0_is_rejected_but_runs (a zero divisor under && || ?: is rejected although never evaluated); enumred_agrees_with_runtime_partial (int/bool trees; the rest of enumred.c by correspondence). Properties_C10b.v (7, Arith/EnumIndex.v) — enum_index_terminates, _satisfies_its_initialiser, _is_the_unique_solution, _independent_of_declaration_order, enum_index_stable, cyclic_reference_reported_only_for_cycles, enumerator_above_a_cycle_gets_no_index. Tie: typing/opcode tables regenerated (table:* obligations); the folded literal read back from the dumped bytecode, the VM result from probe programs with operands in variables, exhaustive over operator x admitted type pairs, corner + random values, MIN/-1 in every div/mod cell; enum declaration sets against the extracted decl_indices",
+        ref="DESIGN.md §5 C10",
+        note=TB + "; excluded as C UB and counted in the evidence: out-of-range float->int, shift counts >= width"),
+    "C11": dict(
+        engine="E3 arith/index",
+        technique="Coq proofs over regenerated finite tables (promotion / assignment conversion / opcode selection: forallb by vm_compute lifted with forallb_forall) and over all values (wrap ring homomorphism, truncating division incl. MIN / -1, two's-complement bit operations, exact int<->long and float<->double conversions on SpecFloat); value probes on the real VM in all operand forms compared by bit pattern",
+        text="proof: Properties_C11.v (17, no _partial/_refuted left) — binary_result_is_join, binary_table_covers_numeric_pairs, assignment_converts_to_left, opcode_matches_type, unary_opcode_matches_type, accepted_cells_are_emitted over tables regenerated from the tree's typechecker+emitter on every run (exhaustive: 1152 binary + 24 unary + 64 assignment cells), and wrap_ring_hom, arith_exact_when_fits, div_never_traps, div_overflow_wraps, div_truncates, div_by_zero_faults, compare_total_int, bitops_are_two_complement, shift_in_range, conv_int_long_exact, conv_float_double_exact for all operand values; tie: every (operator, type pair, value pair) as var-var, lit-lit, lit-var, var-lit and enum-initialiser form, assignments and concatenations, on the real VM; results compared bit-for-bit with the extracted operations (correspondence) and with an independent python reference (property oracle)",
+        ref="DESIGN.md §5 C11",
+        note=TB + "; IEEE conformance of Coq.Floats.SpecFloat is Flocq's theorem (cited, not re-proved, not imported); number formatting (Arith/Fmt.v) has no theorem and is tied by correspondence only; C UB excluded and counted: out-of-range float->int, shift counts >= width"),
+    "C12": dict(
+        engine="E3 arith/index",
+        technique="Coq proofs about models of object_arr_dim_mult/fits/addr, vm_get_slice_range, MK_ARRAY and the deref/slice/string/array-arithmetic handlers; exhaustive small-extent + boundary + random direct-call correspondence and probe programs under ASan",
+        text="proof: Properties_C12.v (25, no _partial/_refuted left) — dim_addr_row_major, row_major_injective, dim_addr_oob, array_deref_spec, dim_fits_spec, mk_array_spec, mk_array_deref_spec (every array the VM creates), slice_range_denotes, slice_range_index_out, slice_range_results, compose_ranges_denotes, range_deref_spec, slice_deref_spec, slice_aliases, mk_array_slice_deref_spec, slice_slice_assoc (all int bounds and indices, no overflow hypothesis since fix acecad0), string_index_guard, string_slice_exact, shape_conformance, arith_result_indexing, and *_regression theorems on the witnesses of the former overflow refutations (fixed by acecad0, 1f9996a); tie: direct calls into the tree's object.c/vmexec.c/exctab.c (exhaustive for <=3 dims, extents <=4, all range quadruples in [-1,5]^4, ranges next to INT_MAX/INT_MIN, random 32-bit values) and handler-level probe programs judged by a python oracle",
+        ref="DESIGN.md §5 C12",
+        note=TB + "; the theorems about object_arr_dim_mult/addr themselves keep the hypothesis product < 2^32 (that function still wraps; the guard sits in MK_ARRAY and the matrix product); handler-level behaviour is tied through probe programs, not by a model of the whole VM"),
+    "C13": dict(
+        engine="E4 verifier + E5 source",
+        technique="Coq proofs: a tail transfer keeps the frame (P, F) and the stack is bounded by (non-tail calls + 1) x (max certified frame size + 5) in every run of verified code; model of front/tailrec.c marks only (and all direct) tail-position self calls; generated tail-recursive family at N and 10N with peak-sp monitor (hook H1) and code-vs-model marking comparison",
+        text="proof: Properties_C13.v (9) — tail_call_keeps_frame, stack_bounded_by_open_calls, stack_bounded_by_nontail_calls, tail_call_constant_stack, tail_call_constant_stack_open (corollaries of verify_depth: any number of tail transfers, peak independent of the iteration count), tailrec_marks_characterised, tailrec_marks_only_tail_positions, tailrec_marks_all_direct_tail_self_calls, tailrec_ignores_catch_clauses for coq/Src/Tailrec.v; tie: generated shapes (?:, if/else, blocks with locals, parentheses, match arms, if-let, |>, unary operators around the call, nested functions with captures, let/var-bound function expressions, catch clauses, units with a use clause / inside a module, non-tail controls) run at N=5000/50000 (thorough 30000/300000) on a 200-slot stack: equal peak sp and frame count, peak below the verifier's bound, result equal to the python reference and the while loop; tail sites in the dumped code equal the model's marking",
+        ref="DESIGN.md §5 C13",
+        note=TB + "; result equality with the loop is a theorem only for the F3 fragment of C02b (self tail calls of top-level functions)"),
+    "C14": dict(
+        engine="E4 verifier + E1 gc",
+        technique="Coq proofs over per-opcode write plans (bump/check/write order mirrored from every handler, regenerated skeleton comparison): no write outside the stack and the limit reported exactly when needed, monotonicity in the stack size, on the shape machine for all runs of verified code; k-slot pushes with a checked vs hoisted check; allocation on a full heap reports out of memory before writing (GC model); exact prediction of the instruction at which the limit fires, guard-slot sweeps, peak probes, CLI family",
+        text="proof: Properties_C14.v (16) — no_write_outside_stack (check-first tree, every opcode), no_write_outside_stack_variant, run_plans_monotone / _demand / _fires_iff_needed, limit_monotone_stack, limit_monotone_completes, limit_fires_iff_needed, limited_run_never_oob, all_consistent_checked, verified_run_under_limit, oom_reported; about the write-first plans of the pinned tree (fixed by f469f0b), kept as the discriminating half: no_write_outside_stack_partial, no_write_outside_stack_refuted, witnesses_checked_report_limit. Properties_C14b.v (10) — every_write_below_checked_bound, written_in_range, push_param_plan, pushn_checked_*, pushn_hoisted_*. The run probes the real VM to see which form of the five irregular handlers the tree has. Tie: stack skeleton of all handlers regenerated from the C sources and compared with the model shapes; for every program and stack size the extracted model's prediction (completes / limit at instruction i) must equal the real VM exactly; heap sweep from 1 cell; entry functions with 0..10 parameters at every size with guard slots; peak probes (one construct at the unique deepest point, per pushing opcode); the `never` tool with -s/-m in every order vs the API",
+        ref="DESIGN.md §5 C14",
+        note=TB + "; heap size 0 is outside the configured sizes; depth of the C recursion in gc_mark (host stack) not modelled; harness/c14/skeleton.py reads handler text (a respelled sp assignment can be reported as a broken tie when no boundary run confirms the model)"),
+    "C15": dict(
+        engine="E2 api + E7 ffi/hash",
+        technique="Coq proofs over all API histories of an abstract embedding-API machine (stack neutrality, repeatability, VM independence; instruction-level VM universally quantified) and of a process-state machine (FP status word, scanner string buffer, working directory) under measured reinitialisation policies, proved necessary; function-table refinement; API-history correspondence and fresh-process replay oracles on the real library under ASan",
+        text="proof for the modelled state: Properties_C15.v (13) — execute_stack_neutral, execute_stack_neutral_call, execute_uses_no_more_stack_than_first, reachable_is_primed, execute_repeatable, execute_outcome_function_of_globals, vms_independent, vms_commute over every finite history (execute_stack_neutral_partial / _refuted / _after_error_refuted describe the pinned policies fixed by 1f8f62e, a221d79); Properties_C15b.v (10) — process_history_as_in_fresh_process under `reinitialises`, process_reinit_necessary, fp_* and scan_* lemmas; Properties_C15c.v (5) — working_directory_invariant_over_history, compiles_resolve_files_as_in_fresh_process, working_directory_restore_necessary, process3_history_as_in_fresh_process under `cwd_restoring`; Hash/FuncTabStatements.v (obligations) — functab_add_sequences, functab_distinct_refines_map. The policies (pop at HALT / restore on error; fe*except masks, opening-quote rule, the two chdir(cwd)) are measured on the tree on every run. The remaining compile-time globals (flex start condition, use stack, line_no, utils_file_name) have no Gallina model and are decided by correspondence only: the k-th compile/execute of a random history must equal a fresh process's (code/exctab/strtab/functab digest, diagnostics, results, sp, cwd), incl. residue, never-path and ffi-failure-then-valid families",
+        ref="DESIGN.md §5 C15",
+        note=TB + "; the instruction-level run of the entry stub is universally quantified in the API theorems: its frame discipline is C07's theorem; the file system is a parameter of the cwd theorems"),
+    "C16": dict(
+        engine="E6 front/mem + E1 gc",
+        technique="Coq proofs: an executable allocation-trace monitor is sound and complete for balanced / no double free / no free of unknown block, and exact about leaks; gc_delete frees each object exactly once (collector model); malloc-event traces of compile->run->dispose from a --wrap shim judged by the extracted monitor, LeakSanitizer as second opinion",
+        text="proof (partial by nature): Properties_C16.v (4) — monitor_sound_complete, monitor_leak_exact, monitor_reject_sound, gc_delete_frees_each_object_once; which source constructs reach which %destructor / *_delete cannot be modelled and is observed: every allocation event of libnev between program_new and the return of program_delete on valid, syntactically broken (grammar-driven, ~1.16x10^4), ill-typed, reducer-rejected and missing-module sources, enum initialisers, an FFI family, entry functions run with host-owned string / string-array arguments (re-prepared, several runs and VMs), all run outcomes, and a heap-size sweep around each probe's need",
+        ref="DESIGN.md §5 C16, §11",
+        note=TB + "; runs ending in exit() inside libnev (stack too large, out of memory), signals and time-outs are counted but not judged for leaks"),
+    "C17": dict(
+        engine="E7 ffi/hash",
+        technique="Coq proofs about a model of the record layout/marshalling code of back/vmffi.c (System V struct layout, marshal/unmarshal round-trip, descriptor stream, nil => ffi_fail decision) and refinement of the library handle cache back/dlcache.c to an association map for every hash function; layout compared exhaustively with gcc's offsetof/sizeof; generated C callees, many-argument and call-sequence families, dlcache operation histories under ASan",
+        text="proof (partial by nature): Properties_C17.v (11) — layout_is_c_layout, ffi_align_is_round_up, marshal_within_bounds, marshal_unmarshal_roundtrip(_nested), marshal_ret_iff_nil, descriptor_stream_wellformed, sizeof_bound, nil_arg_is_ffi_fail (nil_arg_is_ffi_fail_partial / _refuted describe the assigning variant of the pinned tree, fixed by ab7c716) about coq/FFI/Layout.v; Properties_C17b.v (14) — dlcache_refines_map, dlcache_step_total, dlcache_handle_stable, dlcache_never_added_not_found, dlcache_resize_preserves_map ... (dlcache_dup_first_wins_refuted, dlcache_new_size0_refuted: outside what get_handle can reach / outside the precondition). The platform ABI / libffi / dlopen part cannot be modelled and is observed: layout vs gcc over ~10^4 shapes (exhaustive set), generated signatures (arities 0..8 densely, every arity 9..20/24 x by-value record of every size class x position, structs 1-40 bytes, register and memory classes, nil placements, missing library/symbol) must deliver every argument and result exactly; calls in sequence over several programs, VMs and libraries whose names surround the reserved word `host`; real dlcache functions with fake handles compared with the model after every operation",
+        ref="DESIGN.md §5 C17",
+        note=TB + "; register/memory classification, libffi, dlopen/dlsym and ownership of the argument buffers are observed, not proved"),
 }
 
 PENDING_REASON = "check not built yet (framework under construction); will be claimed once its Coq theorems and correspondence run"
+
+
+def findings_note(pid):
+    """'; findings: N fixed by fix: commits, M known' counted from known_findings.jsonl at generation time"""
+    fixed = known = 0
+    for l in open(os.path.join(VERIF, "known_findings.jsonl")):
+        l = l.strip()
+        if not l or l.startswith("#"):
+            continue
+        k = json.loads(l)
+        if k.get("property") != pid:
+            continue
+        if k.get("status", "known") == "fixed":
+            fixed += 1
+        else:
+            known += 1
+    if not fixed and not known:
+        return "; findings keyed to this property (known_findings.jsonl): none"
+    return "; findings keyed to this property (known_findings.jsonl): %d fixed in /repo by fix: commits, %d still known (printed as KNOWN-FINDING, see DESIGN.md §7)" % (fixed, known)
 
 
 def main():
@@ -135,7 +178,7 @@ def main():
                 "replay_cmd_template": "bin/check %s --replay {path}" % pid,
                 "engine": c["engine"],
                 "level_claimed": {"category": c.get("category", "proof"), "text": c["text"], "design_ref": c["ref"]},
-                "level_note": c["note"],
+                "level_note": c["note"] + findings_note(pid),
                 "technique": c["technique"],
             })
         else:
@@ -148,11 +191,7 @@ def main():
                   "baseline_off_cmd": "bin/baseline-off",
                   "source_commits": hook_commits,
                   "add_only": True},
-        "engines": [
-            {"name": "E1 gc", "path": "coq/GC harness/gc", "serves_properties": ["C09", "C04", "C16"], "kind_free_text": "Coq model of gc.c + proofs; op-history correspondence"},
-            {"name": "E4 verifier", "path": "coq/Verifier harness/vm harness/ocaml/verifier", "serves_properties": ["C07", "C13", "C14", "C03"], "kind_free_text": "proved bytecode verifier + shape machine lock-step"},
-            {"name": "E5 source", "path": "coq/Src harness/ocaml/eval", "serves_properties": ["C02", "C08", "C06", "C01"], "kind_free_text": "reference evaluator in Coq, generator, differential"},
-        ],
+        "engines": ENGINES,
         "checks": checks,
         "notes": "see DESIGN.md; bin/check <id> is the single entry point; known_findings.jsonl lists findings/fixes",
         "not_applicable": na,
